@@ -289,6 +289,11 @@ func (x *Exec) sprintf(st *State, args []Val) Val {
 
 func (x *Exec) libInvoke(st *State, key string, c *ssa.CallCommon, args []Val) (Val, bool) {
 	switch key {
+	case "(github.com/benbjohnson/clock.Clock).Now":
+		st.advanceClock()
+		x.noteLib("clock.Clock.Now: the ghost clock (monotone non-decreasing, positive)")
+		st.assume(Cmp(">", st.clock, IntLit(0)))
+		return Sc{st.clock}, true
 	case "(error).Error":
 		iv := args[0].(IfaceV)
 		return Sc{reg.uf("sf_errmsg", SStr, iv.Tag, iv.Pay)}, true
